@@ -92,6 +92,9 @@ impl IndexSet {
     pub fn all() -> Self {
         IndexSet { name: true, age: true, score: true, tags: true, opt: true, ukeys: true, attrs: true, pair: true, body: true, emb: true }
     }
+    pub fn none() -> Self {
+        IndexSet { name: false, age: false, score: false, tags: false, opt: false, ukeys: false, attrs: false, pair: false, body: false, emb: false }
+    }
     pub fn strategy() -> impl Strategy<Value = IndexSet> {
         (any::<[bool; 10]>()).prop_map(|b| IndexSet { name: true, age: b[1], score: b[2], tags: b[3], opt: b[4], ukeys: true, attrs: b[6], pair: b[7], body: b[8], emb: b[9] })
     }
@@ -263,6 +266,24 @@ pub fn sanitize_idx(want: &IndexSet, current: &IndexSet, model: &Model) -> Index
                     out.pair = false;
                 }
                 seen.push(k);
+            }
+        }
+    }
+    // the same for the single-field unique indexes (they can be missing when a history started
+    // from a collection without any index)
+    for (field, want_it, had_it) in [("name", want.name, current.name), ("ukeys", want.ukeys, current.ukeys)] {
+        if want_it && !had_it {
+            let mut seen: Vec<Fv> = vec![];
+            for f in model.values() {
+                for k in derive_keys(f, &[field]) {
+                    if seen.contains(&k) {
+                        match field {
+                            "name" => out.name = false,
+                            _ => out.ukeys = false,
+                        }
+                    }
+                    seen.push(k);
+                }
             }
         }
     }
